@@ -2,7 +2,9 @@
 (***************************************************************************)
 (* Record oracle: every line of recs.ndjson is one crash plan executed on  *)
 (* the REAL node: the bolt file as it was at a commit boundary (and, for   *)
-(* double crashes, at a commit boundary of the restarted run), verified    *)
+(* double crashes, at a commit boundary of the restarted run) or INSIDE a   *)
+(* commit (fn "torn": a prefix of the commit's data pages written, the     *)
+(* meta page not or half written - by Crash.tla the old state), verified   *)
 (* (optionally) and restarted, then given the remaining events.            *)
 (***************************************************************************)
 EXTENDS Integers, Sequences, Json, TLC
